@@ -1162,7 +1162,10 @@ def _corpus(which):
 
 def h_corpus(ctx, which, part=0, parts=1):
     try:
-        probs = _corpus(which)
+        try:
+            probs = _corpus(which)
+        except Exception:  # noqa: BLE001 -- one retry: on a heavily loaded machine the first load has been seen to fail
+            probs = _corpus(which)
     except Exception as e:  # noqa: BLE001 -- the corpus cannot be loaded from this tree (e.g. an exported copy without the PDDL files
         # of up_test_cases): nothing to check here; the run on /repo loads both corpora (witness counts in the evidence)
         ctx.note("corpus-unavailable", f"{type(e).__name__}: {e}")
